@@ -51,9 +51,12 @@ class FakeStdin:
         self.close_count = 0
         self._owner = owner
         self.fail_after: Optional[int] = None  # raise BrokenResourceError after n sends
+        self.gate: Optional[asyncio.Event] = None  # when set and not yet fired: the child is not reading its stdin (pipe full)
 
     async def send(self, data: bytes) -> None:
         await asyncio.sleep(0)
+        if self.gate is not None:
+            await self.gate.wait()
         if self.closed:
             raise anyio.ClosedResourceError
         if self.fail_after is not None and len(self.writes) >= self.fail_after:
